@@ -878,6 +878,10 @@ pub fn run_c17(a: &Args, rep: &mut Report) {
         check_insn(rep, i, (off % 3) as usize, &mut rng);
     }
     rep.set("exhaustive", "opcode x register byte (65536) and all 65536 offsets, sliced over shards");
+    {
+        let i = Insn::new(0x7b, 10, 3, -32768, i32::MIN);
+        rep.sample(json!({"insn": format!("{i:?}"), "bytes": hex(&i.bytes()), "check": "get_insn(to_array(i)) == i at index 0..4, to_array == to_vec"}));
+    }
     // immediates: all 2^32 in the thorough tier (sliced), boundary + random in quick
     if q {
         let n = (2_000_000.0 * a.scale) as u64 / a.nshards;
@@ -1033,6 +1037,9 @@ pub fn run_c17(a: &Args, rep: &mut Report) {
         let enc = rinsn(&i).to_array().to_vec();
         rep.case(Some(fnv(&got) ^ k));
         rep.set("builder_constructors", cname.clone());
+        if rep.want_sample() && k % 7919 == 1 {
+            rep.sample(json!({"builder": cname, "fields": format!("{i:?}"), "bytes": hex(&got)}));
+        }
         if got != i.bytes().to_vec() || got != enc {
             bad(rep, format!("C17:builder-bytes:{cname}"), format!("builder emitted {} ; Insn{{..}}.to_array() = {} ; expected {}", hex(&got), hex(&enc), hex(&i.bytes())), json!({"kind": "builder-case", "constructor": cname, "insn": format!("{i:?}")}));
             continue;
